@@ -258,6 +258,28 @@ def hist_cases(draw, steps):
         st.tuples(st.just("find"), box), st.tuples(st.just("find"), box),
         st.tuples(st.just("iter")), st.tuples(st.just("len")), st.tuples(st.just("in"), st.integers(0, 1000)),
     )
+    if draw(st.integers(0, 7)) == 0:
+        # a plane of 40 x 40 cells and boxes covering 1, 2, 4, 8, 16 or 32 cells per side (4 .. 1024 cells in all): cell
+        # counts at and around the powers of two that an implementation might treat specially
+        g = draw(st.sampled_from([1, 7, 50]))
+        big = (Fr(0), Fr(0), Fr(40 * g), Fr(40 * g))
+        side = st.sampled_from([1, 2, 4, 8, 16, 32, 15, 17])
+
+        def cellbox(i, j, kx, ky):
+            x0, y0 = Fr(i * g) + Fr(g, 2), Fr(j * g) + Fr(g, 2)
+            return (x0, y0, x0 + (kx - 1) * g + Fr(g, 4), y0 + (ky - 1) * g + Fr(g, 4))
+
+        cb = st.builds(cellbox, st.integers(0, 7), st.integers(0, 7), side, side)
+        ops = []
+        for _ in range(draw(st.integers(2, 6))):
+            ops.append(("add", draw(cb)))
+        ops.append(("find", big))
+        for _ in range(draw(st.integers(1, 4))):
+            ops.append(("remove", draw(st.integers(0, 1000))))
+            ops.append(("find", draw(cb)))
+            ops.append(("find", big))
+        ops += [("iter",), ("len",)]
+        return {"kind": "hist", "bounds": big, "grid": g, "ops": ops, "long": True}
     if draw(st.integers(0, 5)) == 0:
         # a long history: dozens of insertions, then more removals than survivors, then iteration and queries (state
         # that only changes after many operations)
